@@ -67,6 +67,10 @@ def evaluate(ctx, prop, cases):
                 nontrivial.add(c.req)
                 st['nontrivial'] += 1
         why = None
+        if a == 'SKIPPED':
+            # the runner blocked repeatedly on earlier requests (each reported as a violation); the rest was not run
+            st['skipped'] = st.get('skipped', 0) + 1
+            continue
         if a == 'HANG':
             why = 'the implementation did not answer within the watchdog limit (blocked or looping)'
         elif a in ('PANIC', 'CRASH') and not (c.panic_ok and model.get(i) == 'PANIC'):
